@@ -125,6 +125,8 @@ pub use self::net::{
 pub use self::request::{Request, RequestContents};
 pub use self::rkyv_tooling::{to_view_bytes, DataView, InvalidView};
 pub use self::server::Server;
+#[cfg(datacake_verif)]
+pub use self::net::verif;
 
 pub(crate) fn hash<H: Hash + ?Sized>(v: &H) -> u64 {
     let mut hasher = DefaultHasher::new();
